@@ -179,6 +179,7 @@ def rcvLine (toks : List String) : String :=
       -- on the implementation's observation alone (the check treats `skip` as "no model answer")
       let volume := evs.foldl (fun acc e => match e.splitOn ":" with
         | [_, "gen", l, _] => acc + (l.toNat?.getD 0)
+        | [_, "zero", l] => acc + (l.toNat?.getD 0)
         | _ => acc) 0
       if volume > 30000000 then "skip" else
       match evs.mapM parseREv with
